@@ -258,7 +258,12 @@ func cmdCheck(args []string) int {
 			rep := map[string]interface{}{"property": id, "harness": r.h.Pkg + "." + r.h.Entry, "class": c, "label": v.Label, "inputs": v.Inputs,
 				"bounds": r.ts.Bounds, "schedule": v.Sched, "decisions": decStrings(v.Trace), "path_condition": v.PC, "where": v.Msg, "observations": v.Obs, "P": r.ts.P, "T": r.ts.T}
 			native := "not-attempted"
-			if r.h.Native && !*noNative {
+			if r.h.Native && !*noNative && nativeCexBudget <= 0 {
+				// every native replay of a hanging counterexample costs up to the native time-out;
+				// past the budget the remaining classes are reported with the in-engine trace only
+				native = "not attempted (native replay budget of this run used up by earlier classes); the in-engine trace is the replay artefact"
+			} else if r.h.Native && !*noNative {
+				nativeCexBudget--
 				_, bad := nativeRun(r.h, []map[string]interface{}{v.Inputs}, r.ts.Bounds, true)
 				if len(bad) > 0 && nativeInfraFailure(bad[0]) {
 					// the native run could not be made at all: that is not a reproduction
@@ -390,6 +395,12 @@ func nativeBuild(h HarnessSpec, scratch string) (string, string) {
 
 var nativeScratch string
 
+// nativeTimeout bounds one native run (a counterexample that hangs natively ends here)
+var nativeTimeout = "60s"
+
+// nativeCexBudget: how many counterexample classes of one check run are replayed natively
+var nativeCexBudget = 6
+
 func nativeRun(h HarnessSpec, pins []map[string]interface{}, bounds map[string]int, expectFail bool) (int, []string) {
 	if nativeScratch == "" {
 		d, err := os.MkdirTemp("/var/tmp", "gjv-replay-")
@@ -408,7 +419,7 @@ func nativeRun(h HarnessSpec, pins []map[string]interface{}, bounds map[string]i
 		dir, _ := os.MkdirTemp(nativeScratch, "pin")
 		b, _ := json.Marshal(map[string]interface{}{"inputs": p, "bounds": bounds})
 		os.WriteFile(filepath.Join(dir, fmt.Sprintf("pin%04d.json", i)), b, 0o644)
-		cmd := exec.Command(bin, "-test.v", "-test.run", "^TestReplay$", "-test.timeout", "120s")
+		cmd := exec.Command(bin, "-test.v", "-test.run", "^TestReplay$", "-test.timeout", nativeTimeout)
 		cmd.Dir = nativeScratch
 		cmd.Env = append(os.Environ(), "VERIF_PIN_DIR="+dir, "VERIF_ENTRY="+h.Entry)
 		out, _ := cmd.CombinedOutput()
